@@ -156,6 +156,8 @@ pub fn uci_stream(args: &[String]) {
             lines.push("quit".to_string());
             lines.push("isready".to_string()); // never reached
         }
+        // the in-process loop always ends through `quit` (end of input is exercised on the real binary)
+        lines.push("quit".to_string());
         if sidx % of != shard {
             continue;
         }
